@@ -219,7 +219,7 @@ func (g *bridgeGen) newDepositTx(flaw string) *depInfo {
 	}
 	d := &depInfo{version: version, key: key, evm: evm, value: value,
 		gen: Ev{"key": project.KeyID(key.Pub), "evm": hex.EncodeToString(evm), "version": int(version), "magicOk": true}}
-	if g.r.Intn(12) == 0 && len(script) > 2 {
+	if (g.r.Intn(12) == 0 || (g.mode == "addr" && g.r.Intn(5) == 0)) && len(script) > 2 {
 		// the handed-out witness program under ANOTHER witness version: a different address, which nobody handed out
 		script = append([]byte{}, script...)
 		vers := []byte{txscript.OP_0, txscript.OP_1, txscript.OP_2, txscript.OP_3, txscript.OP_16}
